@@ -1,14 +1,16 @@
 #!/bin/bash
-# usage: dump_mir.sh <repo-root> <out-file> [interpreter|antlr]
+# usage: dump_mir.sh <repo-root> <out-file> [interpreter|antlr|interpreter-json]
 # dumps the MIR of cel-interpreter (lib, chrono feature) or cel-parser (antlr/) with overflow checks on
 # from the given working tree, forcing a fresh rustc run every time
 set -e
 repo=${1:-/repo}; out=${2:-/verif/.cache/mir/interpreter.mir}; crate=${3:-interpreter}
-mkdir -p "$(dirname "$out")" /verif/.cache/mir-target
-cd "$repo/$crate"
+tdir=${MIR_TARGET_DIR:-/verif/.cache/mir-target}
+mkdir -p "$(dirname "$out")" "$tdir"
 feat="--no-default-features --features chrono"
 [ "$crate" = "antlr" ] && feat=""
+[ "$crate" = "interpreter-json" ] && { feat="--no-default-features --features chrono,json"; crate=interpreter; }
+cd "$repo/$crate"
 CARGO_NET_OFFLINE=true cargo +nightly rustc --offline --lib $feat \
-  --target-dir /verif/.cache/mir-target -- -Zunpretty=mir -C debug-assertions=off -C overflow-checks=on \
+  --target-dir "$tdir" -- -Zunpretty=mir -C debug-assertions=off -C overflow-checks=on \
   --cfg "verif_mir_run_$(date +%s%N)" > "$out.tmp" 2> "$out.err" || { tail -20 "$out.err"; exit 1; }
 mv "$out.tmp" "$out"
